@@ -7,6 +7,8 @@ CONSTANTS
   NStmt = 2
   InjectFaults = TRUE
   AllowDeviations = FALSE
+  Intro <- IntroA1
+  Grp <- GrpA1
 INVARIANT TypeOK
 INVARIANT Converged
 INVARIANT RerunIsNoop
